@@ -203,7 +203,7 @@ def classes(case):
 
 SUBS = [
     Sub("rowpoly", check, strategy=lambda tier: asts.rowpoly_calls(2).map(lambda o: {"op": o}), nontrivial=nontrivial, classes=classes, n_quick=500, n_thorough=3000),
-    Sub("ops", check, strategy=lambda tier: asts.op_asts(2 if tier == "quick" else 3).map(lambda o: {"op": o}), nontrivial=nontrivial, classes=classes, n_quick=1500, n_thorough=8000),
+    Sub("ops", check, fuzz_runs=2000, strategy=lambda tier: asts.op_asts(2 if tier == "quick" else 3).map(lambda o: {"op": o}), nontrivial=nontrivial, classes=classes, n_quick=1500, n_thorough=8000),
     Sub(
         "calls",
         check,
